@@ -136,4 +136,85 @@ theorem swapLoop_reverse {α : Type} (xs : List α) :
     simp only [this, if_false]
   · simp [fuelLt]
 
+/-- Go's binary search on a monotone predicate returns the first index at which it holds (or `n`) -/
+theorem sortSearchLoop_spec (f : Int → Outcome Bool) (p : Nat → Bool) (n : Nat)
+    (hf : ∀ k : Nat, k < n → f (k : Int) = .ok (p k))
+    (hmono : ∀ a b : Nat, a ≤ b → b < n → p a = true → p b = true) :
+    ∀ (fuel : Nat) (i j : Nat), i ≤ j → j ≤ n → j - i ≤ fuel →
+      (∀ k, k < i → p k = false) → (∀ k, j ≤ k → k < n → p k = true) →
+      ∃ r : Nat, sortSearchLoop f fuel (i : Int) (j : Int) = .ok (r : Int) ∧ r ≤ n ∧
+        (∀ k, k < r → p k = false) ∧ (r < n → p r = true) := by
+  intro fuel
+  induction fuel with
+  | zero =>
+    intro i j hij hjn hfu hlo hhi
+    have : i = j := by omega
+    subst this
+    refine ⟨i, ?_, hjn, hlo, fun h => hhi i (Nat.le_refl _) h⟩
+    simp [sortSearchLoop]
+  | succ m ih =>
+    intro i j hij hjn hfu hlo hhi
+    by_cases hlt : i < j
+    · have hlt' : (i : Int) < (j : Int) := by omega
+      have hh : ((i : Int) + (j : Int)) / 2 = (((i + j) / 2 : Nat) : Int) := by omega
+      have hi : i ≤ (i + j) / 2 := by omega
+      have hj : (i + j) / 2 < j := by omega
+      unfold sortSearchLoop
+      simp only [hlt', if_true, hh]
+      rw [hf _ (by omega)]
+      simp only [ok_bind]
+      cases hp : p ((i + j) / 2) with
+      | false =>
+        simp only [Bool.not_false, if_true]
+        have e : ((((i + j) / 2 : Nat) : Int) + 1) = (((i + j) / 2 + 1 : Nat) : Int) := by omega
+        rw [e]
+        apply ih _ _ (by omega) hjn (by omega) _ hhi
+        intro k hk
+        by_cases hk2 : k < i
+        · exact hlo k hk2
+        · cases hpk : p k with
+          | false => rfl
+          | true =>
+            have := hmono k ((i + j) / 2) (by omega) (by omega) hpk
+            rw [hp] at this; exact absurd this (by simp)
+      | true =>
+        simp only [Bool.not_true, Bool.false_eq_true, if_false]
+        apply ih _ _ hi (by omega) (by omega) hlo
+        intro k hk hkn
+        exact hmono _ k hk hkn hp
+    · have : i = j := by omega
+      subst this
+      refine ⟨i, ?_, hjn, hlo, fun h => hhi i (Nat.le_refl _) h⟩
+      unfold sortSearchLoop
+      simp
+
+theorem sortSearch_spec (f : Int → Outcome Bool) (p : Nat → Bool) (n : Nat)
+    (hf : ∀ k : Nat, k < n → f (k : Int) = .ok (p k))
+    (hmono : ∀ a b : Nat, a ≤ b → b < n → p a = true → p b = true) :
+    ∃ r : Nat, sortSearch (n : Int) f = .ok (r : Int) ∧ r ≤ n ∧
+      (∀ k, k < r → p k = false) ∧ (r < n → p r = true) := by
+  have := sortSearchLoop_spec f p n hf hmono n 0 n (Nat.zero_le _) (Nat.le_refl _) (by omega)
+    (fun k hk => absurd hk (Nat.not_lt_zero _)) (fun k hk hkn => absurd hkn (by omega))
+  simpa [sortSearch] using this
+
+/-- the first element satisfying `q` is at the index `r` below which `q` fails and at which it holds -/
+theorem find?_eq_getElem? {α : Type} (q : α → Bool) : ∀ (xs : List α) (r : Nat), r ≤ xs.length →
+    (∀ k (h : k < xs.length), k < r → q xs[k] = false) → (∀ h : r < xs.length, q xs[r] = true) →
+    xs.find? q = xs[r]?
+  | [], r, _, _, _ => by simp
+  | x :: rest, 0, _, _, h1 => by
+    have := h1 (by simp)
+    simp at this
+    simp [List.find?, this]
+  | x :: rest, r + 1, hr, h0, h1 => by
+    have hx : q x = false := h0 0 (by simp) (by omega)
+    simp only [List.find?, hx, List.getElem?_cons_succ]
+    apply find?_eq_getElem? q rest r (by simpa using hr)
+    · intro k h hk
+      have := h0 (k + 1) (by simpa using h) (by omega)
+      simpa using this
+    · intro h
+      have := h1 (by simpa using h)
+      simpa using this
+
 end Knut.GoSem
